@@ -43,14 +43,18 @@ theorem reach_stepR (p : PSt) (r : R) (h : Reachable p.gs) : Reachable (stepR p 
       | exact reach_runG _ _ h
   · -- `.hints`
     exact h
+  · -- `.fired`
+    exact h
+  · -- `.once`
+    exact reach_ite (reach_runG _ _ h) (reach_runG _ _ h)
   · -- `.quiet`
-    exact reach_runG _ _ (reach_ite (reach_rewireAll _ h) h)
+    exact reach_runG _ _ (reach_ite (reach_detachAll _ (reach_rewireAll _ h)) h)
   · -- `.open_`
     exact h
   · -- `.close`
     split
     · exact h
-    · exact reach_runG _ _ (reach_ite (reach_rewireAll _ (reach_runG _ _ h)) h)
+    · exact reach_runG _ _ (reach_ite (reach_detachAll _ (reach_rewireAll _ (reach_runG _ _ h))) h)
   · exact h
   · exact h
   · exact h
@@ -355,6 +359,59 @@ example :
     ⟨by decide +kernel, hr _, by decide +kernel, by decide +kernel, by decide +kernel, by decide +kernel⟩,
     ⟨hk, by decide +kernel, leakStep_frees_all _ (hr _) (by decide +kernel) hk⟩,
     by decide +kernel⟩
+
+/-! ### non-vacuity: a `once` that detaches from its source when it has fired
+
+  Same presentation: four of the six lines go through the real `compile` on their words; the two that parse a number
+  (`once o s @1`, `oncedone 1`) are given compiled, and `#guard`s compare with `compile` / `run` on the strings. -/
+
+/-- a sink, a `once` on it (number 1 in the oracle) and a listener on its output; the oracle says the `once` has let its
+    event through (`oncedone`), `send` ends a transaction: the detachment happens -/
+def exOnceLines : List String :=
+  ["ssink s", "once o s @1", "listen l o", "oncedone 1", "send s 1", "graphdump"]
+
+/-- what `once o s @1` compiles to after `ssink s` (sink `0`): the once node `1`, with its dependency edge and the handle
+    its closure captured, both on `0` -/
+def exOnceR : R :=
+  .once
+    [.inc 0, .new "Stream::once", .edge 1 0, .edge 1 0, .sdeps 1 [0], .dec 0, .eot]
+    [("o", .stream 1), ("s", .ssink 0)] 1 0 1
+
+def exOnceItems : List (List String ⊕ R) :=
+  [.inl ["ssink", "s"], .inr exOnceR, .inl ["listen", "l", "o"], .inr (.fired [1]), .inl ["send", "s", "1"],
+   .inl ["graphdump"]]
+
+-- evaluation checks (run at build time, not theorems)
+#guard exOnceLines.map tokens ==
+  [["ssink", "s"], ["once", "o", "s", "@1"], ["listen", "l", "o"], ["oncedone", "1"], ["send", "s", "1"], ["graphdump"]]
+#guard compile [("s", .ssink 0)] 1 ["once", "o", "s", "@1"] = exOnceR
+#guard compile (runItems {} (exOnceItems.take 1)).env (runItems {} (exOnceItems.take 1)).gs.g.nextId
+  (tokens "once o s @1") = exOnceR
+#guard compile [] 0 (tokens "oncedone 1") = .fired [1]
+#guard (run exOnceLines).err = false
+#guard (run (exOnceLines.take 4)).onces = [(1, 0, 1)]
+#guard (run exOnceLines).onces = []
+#guard ((run (exOnceLines.take 4)).gs.g.node 1).owned = [0, 0]
+#guard ((run exOnceLines).gs.g.node 1).owned = [0]
+#guard (step (run (exOnceLines.take 5)) "graphdump").2 =
+  "graph Stream::new:2[] Stream::once:3[0] Stream::listen:1[1,1] Listener::new:2[2]"
+
+/-- the `once` recipe and its detachment run without a structural error (no inapplicable operation, handle balance after
+    the structural lines) in reachable states.  Before the send, the once node `1` is recorded as attached and owns two
+    edges to its source `0` (the dependency, the handle captured by its closure); once the oracle says it has fired and a
+    transaction ends, it is no longer recorded and one edge is left — cut through temporary handles that are all given
+    back (`balanced`) -/
+example :
+    (runItems {} exOnceItems).err = false ∧ Reachable (runItems {} exOnceItems).gs ∧
+    (let p := runItems {} (exOnceItems.take 4)
+     p.err = false ∧ p.onces = [(1, 0, 1)] ∧ p.done = [1] ∧ (p.gs.g.node 1).owned = [0, 0] ∧
+     (p.gs.g.node 0).rc = 3) ∧
+    (let p := runItems {} exOnceItems
+     p.onces = [] ∧ (p.gs.g.node 1).owned = [0] ∧ (p.gs.g.node 0).rc = 2 ∧ (p.gs.g.node 1).freed = false ∧
+     balanced p = true) := by
+  exact ⟨by decide +kernel, reach_runItems _ {} .init,
+    ⟨by decide +kernel, by decide +kernel, by decide +kernel, by decide +kernel, by decide +kernel⟩,
+    ⟨by decide +kernel, by decide +kernel, by decide +kernel, by decide +kernel, by decide +kernel⟩⟩
 
 /-! ### the known finding D6, machine-checked: a `switch_c` in a `CellLoop` is never freed
 
